@@ -2,7 +2,10 @@
 # try_seed.sh <seed dir> <property> [tier]: apply the seeded change to /repo, run the check, undo it.
 D="$1"; P="$2"; T="${3:-quick}"
 cd /repo && git apply "$D/patch.diff" || { echo "apply failed"; exit 2; }
+# the evidence file is rewritten by every run: keep the one from the unchanged tree
+cp /verif/evidence/$P.json "$D/evidence_before.json" 2>/dev/null
 cd /verif && ./check "$P" --tier "$T" > "$D/check_$P.log" 2>&1; RC=$?
 cd /repo && git checkout -- . 
+[ -f "$D/evidence_before.json" ] && mv "$D/evidence_before.json" /verif/evidence/$P.json
 echo "check $P on $(basename $D): rc=$RC"; grep -E "^(VIOLATION|KNOWN|OK|FAIL)" "$D/check_$P.log"
 exit $RC
